@@ -1831,12 +1831,12 @@ class Isometry(projective.Transformation, HyperbolicObject):
                                    -1 * np.abs(np.imag(eigvals)),
                                    in_plane])
             sort_indices = np.lexsort(sort_order, axis=-1)
-            sort_indices = np.expand_dims(sort_indices, axis=-2)
         else:
             sort_indices = np.argsort(in_plane, axis=-1)
 
         # we want a descending sort to put maximum modulus eigenvalues first
-        sort_indices = np.flip(sort_indices, axis=-1)
+        sort_indices = np.expand_dims(np.flip(sort_indices, axis=-1),
+                                      axis=-2)
 
         pt_data = np.take_along_axis(eigvecs, sort_indices, axis=-1).swapaxes(-1, -2)
 
